@@ -68,6 +68,9 @@ struct sched {
     std::uint64_t seq = 0;
     int deadlock = 0;
     int sleeper = -1;     // thread that just called sleepMs: it gives way to the others
+    int last_chosen = -1;
+    std::uint64_t run_len = 0;          // consecutive steps of last_chosen
+    std::uint64_t fair_quantum = 3000;  // fairness: a thread that ran this long yields to the others
     int rr = 0;
 
     static sched& get() {
@@ -160,7 +163,24 @@ inline int pick(sched& S, int me) {
         if (me_ok && me != S.sleeper && U(S.rng) < S.stick) chosen = me;
         else chosen = cand[S.rng() % cand.size()];
     }
-    if (chosen != S.sleeper && S.sleeper >= 0 && chosen >= 0) { /* someone else runs: the sleeper may wake */ }
+    // fairness: retry loops without a spin point (e.g. readers restarting from the root while a structure
+    // modification is parked) must not starve the thread they are waiting for
+    if (chosen == S.last_chosen) {
+        if (++S.run_len > S.fair_quantum && cand.size() > 1 && S.mode != 2) {
+            for (std::size_t q = 0; q < cand.size(); ++q) {
+                int c = cand[(S.rr + q) % cand.size()];
+                if (c != chosen) {
+                    chosen = c;
+                    break;
+                }
+            }
+            ++S.rr;
+            S.run_len = 0;
+        }
+    } else {
+        S.run_len = 0;
+    }
+    S.last_chosen = chosen;
     S.trace.push_back(chosen);
     return chosen;
 }
